@@ -2421,7 +2421,38 @@ class Executor:
                            key=lambda n: (n.lineno, n.col_offset)) if fnode is not None else []
             for k, n in enumerate(loops):
                 ords[(n.lineno, n.col_offset)] = k
-        return self.loop_specs.get((self.cur_func, ords.get((node.lineno, node.col_offset))))
+        spec = self.loop_specs.get((self.cur_func, ords.get((node.lineno, node.col_offset))))
+        return self._bind_roles(spec, node)
+
+    def _bind_roles(self, spec, node):
+        """loop contracts may name variables by *role* so that renaming a local does not leave the
+        contract undecided: __target is the loop variable of a for loop, __acc the one list that the
+        body mutates with append / pop"""
+        if spec is None or not getattr(spec, "roles", False):
+            return spec
+        cache = getattr(self, "_role_cache", None)
+        if cache is None:
+            cache = self._role_cache = {}
+        key = (id(spec), node.lineno, node.col_offset)
+        if key in cache:
+            return cache[key]
+        from .verify import LoopSpec
+        target = node.target.id if isinstance(node, ast.For) and isinstance(node.target, ast.Name) else None
+        accs = []
+        for n in ast.walk(ast.Module(body=list(node.body), type_ignores=[])):
+            if isinstance(n, ast.Call) and isinstance(n.func, ast.Attribute) and isinstance(n.func.value, ast.Name) \
+                    and n.func.attr in ("append", "pop") and n.func.value.id not in accs:
+                accs.append(n.func.value.id)
+        if target is None or len(accs) != 1:
+            raise Unsupported(f"loop contract by role: cannot identify the loop variable / the one accumulated list at {self.where(node)}")
+
+        def sub(x):
+            return x.replace("__target", target).replace("__acc", accs[0]) if isinstance(x, str) else x
+        raw = {k: sub(v) for k, v in spec.raw.items()}
+        raw.pop("roles", None)
+        bound = LoopSpec(raw, spec.modsrc)
+        cache[key] = bound
+        return bound
 
     def assigned_names(self, stmts):
         """names re-bound in the statements, and names of objects mutated in place by a method"""
